@@ -932,41 +932,27 @@ impl WmoWriter {
         header.write(writer)?;
 
         for node in nodes {
-            // Write plane normal and flags packed into first float
-            let plane_flags;
-            let plane_normal_x;
-
-            // Encode the normal into the first float and flags
-            if node.plane.normal.x.abs() > 0.999 {
-                plane_flags = 0; // X axis
-                plane_normal_x = f32::from_bits(plane_flags);
-            } else if node.plane.normal.y.abs() > 0.999 {
-                plane_flags = 1; // Y axis
-                plane_normal_x = f32::from_bits(plane_flags);
-            } else if node.plane.normal.z.abs() > 0.999 {
-                plane_flags = 2; // Z axis
-                plane_normal_x = f32::from_bits(plane_flags);
+            // CAaBspNode (16 bytes): flags u16 (bits 0-1 = split axis, 4 = leaf), negChild i16,
+            // posChild i16, nFaces u16, faceStart u32, planeDist f32.  BSP planes are axis
+            // aligned: the axis is the dominant component of the plane normal.
+            let n = &node.plane.normal;
+            let (ax, ay, az) = (n.x.abs(), n.y.abs(), n.z.abs());
+            let axis: u16 = if ax >= ay && ax >= az {
+                0
+            } else if ay >= az {
+                1
             } else {
-                plane_flags = 3; // Custom normal
+                2
+            };
+            let is_leaf = node.children[0] < 0 && node.children[1] < 0;
+            let flags: u16 = if is_leaf { axis | 0x4 } else { axis };
 
-                // Encode x component into the upper 30 bits
-                let x_encoded = (node.plane.normal.x * 32767.0) as i32;
-                plane_normal_x = f32::from_bits((x_encoded << 2 | plane_flags as i32) as u32);
-            }
-
-            if plane_flags < 3 {
-                writer.write_u32_le(plane_flags)?;
-            } else {
-                writer.write_f32_le(plane_normal_x)?;
-            }
-
-            writer.write_f32_le(node.plane.distance)?;
-
+            writer.write_u16_le(flags)?;
             writer.write_i16_le(node.children[0])?;
             writer.write_i16_le(node.children[1])?;
-
-            writer.write_u16_le(node.first_face)?;
             writer.write_u16_le(node.num_faces)?;
+            writer.write_u32_le(node.first_face as u32)?;
+            writer.write_f32_le(node.plane.distance)?;
         }
 
         Ok(())
